@@ -239,8 +239,9 @@ static void sweep_cond(Jit& jit) {
           if (k % 3 == 1) b = a;                       // equal operands
           if (k % 3 == 2) b = (~a + 1) & mask_of(sz);  // a + b = 0 with carry
           if (count) b = r.below(sz * 8);
+          if (count && k == 0) b = 0;
           if (b_form == "i") b = uint64_t(imm);
-          if (b_form == "same") b = a;
+          if (b_form == "same") { if (count) a = r.below(sz * 8); b = a; }
           if (ct.one_arg) { b = 0; if (k % 2) a = 0; }
           slot(io, 1) = a; slot(io, 2) = b; slot(io, 0) = r.next(); slot(io, 4) = r.next();
         };
@@ -251,6 +252,8 @@ static void sweep_cond(Jit& jit) {
           w_word(w, "tv", uint64_t(TV), sz); w_word(w, "fv", uint64_t(FV), sz);
           uint64_t res = cslot(out, 4) & mask_of(sz);
           w.kv("taken", res == (uint64_t(TV) & mask_of(sz)) ? 1 : res == (uint64_t(FV) & mask_of(sz)) ? 0 : 2);
+          // a shift by a zero count held in a register leaves the x86 flags untouched (see KNOWN findings)
+          if ((n == "shr_z" || n == "shr_nz") && b_form != "i" && (cslot(in, 2) & mask_of(sz)) == 0) w.kv("tag", "count0");
         };
         run_case(jit, ck, lvl, 0, body, gen, rec, g_quick ? 6 : 18);
       }
